@@ -29,14 +29,14 @@ type Cut struct {
 
 // Case is one fully materialised simulated execution.
 type Case struct {
-	Prop  string   `json:"property"`
-	Run   uint64   `json:"run"`  // index of the generating run
-	Seed  uint64   `json:"seed"` // VERIF_SEED of the generating run (informational)
-	Mode  string   `json:"mode"` // engine-specific
-	Doc   *gen.Doc `json:"doc,omitempty"`
-	Raw   []byte   `json:"raw,omitempty"` // literal stream (no structure known); used when Doc is nil
+	Prop  string         `json:"property"`
+	Run   uint64         `json:"run"`  // index of the generating run
+	Seed  uint64         `json:"seed"` // VERIF_SEED of the generating run (informational)
+	Mode  string         `json:"mode"` // engine-specific
+	Doc   *gen.Doc       `json:"doc,omitempty"`
+	Raw   []byte         `json:"raw,omitempty"` // literal stream (no structure known); used when Doc is nil
 	Sched iosim.Schedule `json:"schedule"`
-	Cut   *Cut     `json:"cut,omitempty"`
+	Cut   *Cut           `json:"cut,omitempty"`
 	// NameArgs mirrors Opts.NameArguments.
 	NameArgs bool `json:"name_args"`
 	// Extra carries engine-specific material (map orders, task scripts…).
@@ -469,4 +469,18 @@ func clipS(s string, n int) string {
 		return s[:n] + "…"
 	}
 	return s
+}
+
+// NoteReader folds a reader's reach counters into the coverage.
+func (c *Cov) NoteReader(sr *iosim.SimReader) {
+	c.Faults.Add(sr.Stats)
+	for w := range sr.States {
+		for p := range sr.States[w] {
+			for k, n := range sr.States[w][p] {
+				if n > 0 {
+					c.States[iosim.StateNames[0][w]+"/"+iosim.StateNames[1][p]+"/"+iosim.StateNames[2][k]] += n
+				}
+			}
+		}
+	}
 }
